@@ -22,7 +22,8 @@ Record oracle := mkOr {
   o_rest : list (nat * bool);
   o_match : list (string * string);      (* (pattern, name) pairs filepath.Match accepts *)
   o_matcherr : list string;              (* patterns filepath.Match rejects as malformed *)
-  o_depnames : list (nat * list string) }.
+  o_depnames : list (nat * list string);
+  o_maxfile : option Z }.                (* MaxDecompressedFileSize in force for the case; None = the default *)
 
 Fixpoint find {K V} (eqb : K -> K -> bool) (k : K) (l : list (K * V)) : option V :=
   match l with
@@ -96,7 +97,7 @@ Section WithOracle.
 
   Definition fuel := 8%nat.
   Definition mt := max_decompressed_chart_size.
-  Definition mf := max_decompressed_file_size.
+  Definition mf := match o_maxfile o with Some z => z | None => max_decompressed_file_size end.
 
   Definition m_save := save r_enc r_lockenc r_json r_san r_semver r_rest.
   Definition m_package := package r_enc r_lockenc r_json r_san r_semver r_rest r_depnames.
